@@ -79,4 +79,11 @@ theorem sign_ignores_rest_of_script (m : Mode) (O : Oracles) (p : ParamSet) (fue
     the NTT / Montgomery pipeline (C18); in this development it is decided by differential execution against the
     Python transcription of FIPS 204 (`checks/ref/mldsa.py`), see DESIGN 5 C03. -/
 
+/-- **the two rejection tests of the signing loop, as written in `sign_internal` (regenerated from the source on every
+    run), are those of Algorithm 7 lines 23 and 28** - in particular a candidate with exactly `omega` hints is kept, one
+    with `‖z‖∞ = gamma1 - beta` is rejected - and they are the tests the model's `signAttempt` applies -/
+theorem sign_rejection_tests_are_algorithm_7 (zn r0n ct0n hsum g1 g2 beta omega : Int) :
+    signReject1 zn r0n g1 g2 beta = (decide (zn ≥ g1 - beta) || decide (r0n ≥ g2 - beta)) ∧
+    signReject2 ct0n hsum g2 omega = (decide (ct0n ≥ g2) || decide (hsum > omega)) := ⟨rfl, rfl⟩
+
 end Fips204.Props.C03
